@@ -288,6 +288,8 @@ def run(ctx):
     n_tie += c01v_part.part_vexpr(ctx)  # Venom front end: expression lowering model, O-tie, theorem vexpr_compile_correct
     from vlib import c01v_stmt
     n_tie += c01v_stmt.part_vstmt(ctx)  # ... and statement lowering (vstmt_compile_correct)
+    from vlib import c01l_stmt
+    n_tie += c01l_stmt.part_lstmt(ctx)  # legacy statement lowering (lstmt_compile_correct) + legacy_venom_agree
     cfgs = configs(ctx.tier)
     n = 24 if ctx.tier == "quick" else 240
     items, stats = differential(ctx, n, cfgs)
@@ -320,3 +322,5 @@ def prebuild(ctx):
     from vlib import c01v_part, c01v_stmt
     c01v_part.prebuild(ctx)
     c01v_stmt.prebuild(ctx)
+    from vlib import c01l_stmt
+    c01l_stmt.prebuild(ctx)
